@@ -95,6 +95,30 @@ pub fn each(tier: Tier, f: &mut dyn FnMut(Case) -> bool) -> bool {
             }
         }
     }
+    // the shape of the FILE: what the text starts with (nothing, a `#!` line, a byte-order mark, a comment, blank
+    // lines) x what it ends with (nothing, LF, CRLF, CR, blanks, a comment without a line end) x a few bodies,
+    // among them the empty one: the runner ends normally whatever the file looks like
+    {
+        let mut k = 0usize;
+        for head in ["", "#!", "#!/usr/bin/env nederlang", "#!\n", "#!/usr/bin/env nederlang\n", "#", "\u{feff}", "//", "// c", "// c\n", "\n", "\r\n", " ", "\t"] {
+            for body in ["", "1 + 1", "stel a = 1; a + 1", "print(\"x\")", "(1 +", "\"open"] {
+                for tail in ["", "\n", "\r\n", "\r", " ", "\n\n", " // c", "//", ";", "\u{0}"] {
+                    k += 1;
+                    let expect = if head.is_empty() && tail != "\u{0}" && tail != "\r" {
+                        match body {
+                            "1 + 1" | "stel a = 1; a + 1" => Some("2".to_string()),
+                            _ => None,
+                        }
+                    } else {
+                        None
+                    };
+                    if !f(Case { family: "file-shapes", n: k, text: format!("{head}{body}{tail}"), expect }) {
+                        return false;
+                    }
+                }
+            }
+        }
+    }
     // counts of things (the machine's size limits are reached on the way: both builds must refuse alike)
     let counted: Vec<(&'static str, Gen)> = vec![
         ("statements;", Box::new(|n| (format!("{}2", "1;".repeat(n)), None))),
@@ -273,8 +297,8 @@ pub fn check_case(sh: &mut Shard, class: &str, c: &Case, dev: &str, rel: &str) {
     let desc = json!({"cli": {"family": c.family, "n": c.n}, "text_head": c.text.chars().take(80).collect::<String>(), "text_bytes": c.text.len()});
     let mut why: Option<String> = None;
     for (name, o) in [("unoptimised (dev)", &d), ("release", &r), ("unoptimised (dev), on a 2 MiB stack,", &d2)] {
-        if !o.status.starts_with("exit ") {
-            why = Some(format!("the {name} build of the interpreter was {} on {} x {} ({} bytes of input); stderr: {:?}", o.status, c.family, c.n, c.text.len(), o.stderr_head));
+        if o.status != "exit 0" {
+            why = Some(format!("the {name} build of the interpreter ended with / was {} on {} x {} ({} bytes of input); stderr: {:?}", o.status, c.family, c.n, c.text.len(), o.stderr_head));
             break;
         }
     }
